@@ -1,0 +1,73 @@
+//go:build verif
+
+package experiment
+
+// Contracts for the deductive verifier in /verif (govc). Comment-only file.
+
+// ---- C19: descriptive statistics -------------------------------------------
+// The definitions (msMin, msMean, msQuantileEmp, ...) are functions of the
+// multiset of the series, hence independent of element order.
+
+//@ func (Floats).Min
+//@   props C19
+//@   modifies nothing
+//@   ensures [empty] len(x) == 0 ==> isNaN(result)
+//@   ensures [def] len(x) > 0 ==> result == msMin(ms(x))
+//@ func (Floats).Max
+//@   props C19
+//@   modifies nothing
+//@   ensures [empty] len(x) == 0 ==> isNaN(result)
+//@   ensures [def] len(x) > 0 ==> result == msMax(ms(x))
+//@ func (Floats).Sum
+//@   props C19
+//@   modifies nothing
+//@   ensures [empty] len(x) == 0 ==> result == 0.0
+//@   ensures [def] result == msSum(ms(x))
+//@ func (Floats).Mean
+//@   props C19
+//@   modifies nothing
+//@   ensures [empty] len(x) == 0 ==> isNaN(result)
+//@   ensures [def] len(x) > 0 ==> result == msMean(ms(x))
+//@ func (Floats).MeanVariance
+//@   props C19
+//@   modifies nothing
+//@   ensures [len] len(result) == 2
+//@   ensures [empty] len(x) == 0 ==> isNaN(result[0]) && isNaN(result[1])
+//@   ensures [def] len(x) > 0 ==> result[0] == msMean(ms(x)) && result[1] == msVariance(ms(x))
+//@ func (Floats).Median
+//@   props C19
+//@   requires forall i :: 0 <= i && i < len(x) ==> !isNaN(x[i])
+//@   modifies nothing
+//@   ensures [empty] len(x) == 0 ==> isNaN(result)
+//@   ensures [def] len(x) > 0 ==> result == msQuantileEmp(ms(x), 0.5)
+//@ func (Floats).Q25
+//@   props C19
+//@   requires forall i :: 0 <= i && i < len(x) ==> !isNaN(x[i])
+//@   modifies nothing
+//@   ensures [empty] len(x) == 0 ==> isNaN(result)
+//@   ensures [def] len(x) > 0 ==> result == msQuantileEmp(ms(x), 0.25)
+//@ func (Floats).Q75
+//@   props C19
+//@   requires forall i :: 0 <= i && i < len(x) ==> !isNaN(x[i])
+//@   modifies nothing
+//@   ensures [empty] len(x) == 0 ==> isNaN(result)
+//@   ensures [def] len(x) > 0 ==> result == msQuantileEmp(ms(x), 0.75)
+//@ func (Floats).Variance
+//@   props C19
+//@   modifies nothing
+//@   ensures [empty] len(x) == 0 ==> isNaN(result)
+//@   ensures [def] len(x) > 0 ==> result == msVariance(ms(x))
+//@ func (Floats).StdDev
+//@   props C19
+//@   modifies nothing
+//@   ensures [empty] len(x) == 0 ==> isNaN(result)
+//@   ensures [def] len(x) > 0 ==> result == msStdDev(ms(x))
+//@ func (Floats).sortedCopy
+//@   props C19
+//@   requires forall i :: 0 <= i && i < len(x) ==> !isNaN(x[i])
+//@   modifies nothing
+//@   ensures [len] len(result) == len(x)
+//@   ensures [sorted] forall i, j :: 0 <= i && i < j && j < len(result) ==> result[i] <= result[j]
+//@   ensures [perm] ms(result) == ms(x)
+//@   ensures [nonan] forall i :: 0 <= i && i < len(result) ==> !isNaN(result[i])
+//@   ensures [fresh] fresh(result) && result != nil
